@@ -166,6 +166,14 @@ static int probe_depslog(int, char**) {
       std::string d = Unhex(h);
       fwrite(d.data(), 1, d.size(), f);
       fclose(f);
+    } else if (op == "cp" || op == "cptrunc") {
+      // cp <src> <dst> / cptrunc <src> <dst> <n>: what a process that died mid-way leaves behind under another name
+      std::string a, b2, d; long n = -1; is >> a >> b2; if (op == "cptrunc") is >> n;
+      if (ReadWhole(a, &d)) {
+        if (n >= 0 && (size_t)n < d.size()) d.resize(n);
+        FILE* f = fopen(b2.c_str(), "wb");
+        if (f) { fwrite(d.data(), 1, d.size(), f); fclose(f); }
+      }
     } else if (op == "trunc") {
       std::string p; long n; is >> p >> n;
       if (truncate(p.c_str(), n) != 0) puts("TRUNCFAIL");
